@@ -119,3 +119,8 @@ Definition justified_global_aliases : list (string * string) := [
   ("config.DefaultConfig", "internal/ircserver/ircserver.go:NewIRCServer")
 ].
 
+(* Instance-consistency sites (function, description) admitted although the scanner cannot see that one
+   instance is meant.  None: FSM.refreshSessionExpiration re-reads main.ircServer, but holds raft.fsm and
+   FSM.restoreMu there, which inst_ok accepts on its own. *)
+Definition justified_instance_mismatches : list (string * string) := [].
+
